@@ -73,8 +73,9 @@ struct BindingInfo {
     var: Symbol,
     /// Index of the tuple element (scrutinee column)
     column_index: usize,
-    /// If binding comes from a constructor payload, contains payload type and optional tuple index
-    payload: Option<(TypeNodeId, Option<usize>)>,
+    /// If binding comes from a constructor payload, contains payload type and the path of tuple
+    /// indices that leads from the payload to the bound component (empty: the payload itself)
+    payload: Option<(TypeNodeId, Vec<usize>)>,
 }
 
 /// Decision tree node
@@ -3928,7 +3929,7 @@ impl Context {
             PatternCell::Variable(v) => vec![BindingInfo {
                 var: *v,
                 column_index: col_idx,
-                payload: Some((payload_ty, None)),
+                payload: Some((payload_ty, vec![])),
             }],
             PatternCell::Tuple(cells) => cells
                 .iter()
@@ -3937,7 +3938,10 @@ impl Context {
                     Self::collect_bindings_from_payload(c, col_idx, payload_ty)
                         .into_iter()
                         .map(move |mut b| {
-                            b.payload = Some((payload_ty, Some(elem_idx)));
+                            // one more level of nesting: this tuple's index comes first
+                            if let Some((_, path)) = &mut b.payload {
+                                path.insert(0, elem_idx);
+                            }
                             b
                         })
                 })
@@ -4118,8 +4122,9 @@ impl Context {
                         continue;
                     }
 
-                    match binding.payload {
-                        Some((payload_ty, tuple_index)) => {
+                    match &binding.payload {
+                        Some((payload_ty, tuple_path)) => {
+                            let payload_ty = *payload_ty;
                             // Payload binding - extract from tagged union payload.
                             let enum_ptr = self.push_inst(Instruction::GetElement {
                                 value: tuple_val.clone(),
@@ -4134,24 +4139,31 @@ impl Context {
                             // Clone refcounted values extracted from the tagged union
                             self.insert_clone_recursively(payload.clone(), payload_ty);
 
-                            if let Some(elem_idx) = tuple_index {
-                                let payload_elem = self.push_inst(Instruction::GetElement {
-                                    value: payload.clone(),
-                                    ty: payload_ty,
-                                    tuple_offset: elem_idx as u64,
-                                });
+                            if tuple_path.is_empty() {
+                                self.add_bind((binding.var, payload));
+                            } else {
+                                // Walk down the (possibly nested) tuple payload
+                                let (payload_elem, payload_elem_ty) = tuple_path.iter().fold(
+                                    (payload, payload_ty),
+                                    |(value, ty), &elem_idx| {
+                                        let elem = self.push_inst(Instruction::GetElement {
+                                            value,
+                                            ty,
+                                            tuple_offset: elem_idx as u64,
+                                        });
+                                        let elem_ty = match ty.to_type() {
+                                            Type::Tuple(types) => types[elem_idx],
+                                            _ => ty,
+                                        };
+                                        (elem, elem_ty)
+                                    },
+                                );
                                 // Clone refcounted values from the payload element
-                                let payload_elem_ty = match payload_ty.to_type() {
-                                    Type::Tuple(types) => types[elem_idx],
-                                    _ => payload_ty,
-                                };
                                 self.insert_clone_recursively(
                                     payload_elem.clone(),
                                     payload_elem_ty,
                                 );
                                 self.add_bind((binding.var, payload_elem));
-                            } else {
-                                self.add_bind((binding.var, payload));
                             }
                         }
                         None => {
